@@ -528,8 +528,10 @@ def build_general(rng, sid, typ, n, nf, n_unknown=0, n_corr=0, radius=0.1, exces
                    for row in m] for m in ms]
         if outlier is not None and outlier[0] == idx:
             snf, str_ = outlier[2], outlier[3]
-            ms = [[[z + outlier[1] * math.sqrt(snf * snf + str_ * str_ * abs(z) ** 2) * cmath.rect(1.0, 0.7)
-                    for z in row] for row in m] for m in ms]
+            fsel = outlier[4] if len(outlier) > 4 else None          # only these frequency indices
+            ms = [[[z + (outlier[1] * math.sqrt(snf * snf + str_ * str_ * abs(z) ** 2) * cmath.rect(1.0, 0.7)
+                         if (fsel is None or fi in fsel) else 0.0)
+                    for z in row] for row in m] for fi, m in enumerate(ms)]
         sc.add_mapped(nm, ms)
         sc.std_truth.append(st)
     sc.nstd = len(stds)
